@@ -13,9 +13,9 @@ echo "== unit tests with change"; cargo test --offline --lib 2>&1 | grep -E '^te
 [ -n "$feat" ] && { cargo build --offline $feat 2>&1 | tail -1; }
 echo "== demo with change (expect FAIL)"; RUSTFLAGS="$flags" cargo test --offline $feat --test "$demoname" 2>&1 | grep -E '^test result|error(\[|:)' | head -3 | tee /tmp/cm-$id$suf.with
 git diff -- src > /tmp/cm-$id$suf.patch
-git stash push -q -- src
+git apply -R /tmp/cm-$id$suf.patch
 echo "== demo without change (expect PASS)"; RUSTFLAGS="$flags" cargo test --offline $feat --test "$demoname" 2>&1 | grep -E '^test result|error(\[|:)' | head -3 | tee /tmp/cm-$id$suf.without
-git stash pop -q
+git apply /tmp/cm-$id$suf.patch
 ok=1
 grep -q '39 passed; 0 failed' /tmp/cm-$id$suf.unit || ok=0
 grep -q 'FAILED' /tmp/cm-$id$suf.with || ok=0
